@@ -23,37 +23,50 @@ import (
 type sg struct {
 	any  bool
 	deps uint32
+	// ref: non-negative only because a test or a clamp said so (its magnitude is unknown - it
+	// may well be zero): subtracting from such a value is NOT treated optimistically
+	ref bool
 }
 
 var sgNN = sg{}
 var sgAny = sg{any: true}
+var sgRef = sg{ref: true}
 
 func sgJoin(a, b sg) sg {
 	if a.any || b.any {
 		return sgAny
 	}
-	return sg{deps: a.deps | b.deps}
+	return sg{deps: a.deps | b.deps, ref: a.ref || b.ref}
 }
 
 type signState struct {
-	cells map[string]sg
-	leq   map[string]bool // "a<=b"
+	cells   map[string]sg
+	leq     map[string]bool // "a<=b"
+	written map[string]bool // cells rewritten in place on some path to here
 }
 
 func (s *signState) clone() *signState {
-	n := &signState{cells: make(map[string]sg, len(s.cells)), leq: make(map[string]bool, len(s.leq))}
+	n := &signState{cells: make(map[string]sg, len(s.cells)), leq: make(map[string]bool, len(s.leq)), written: make(map[string]bool, len(s.written))}
 	for k, v := range s.cells {
 		n.cells[k] = v
 	}
 	for k := range s.leq {
 		n.leq[k] = true
 	}
+	for k := range s.written {
+		n.written[k] = true
+	}
 	return n
 }
 
 func (s *signState) equal(o *signState) bool {
-	if len(s.cells) != len(o.cells) || len(s.leq) != len(o.leq) {
+	if len(s.cells) != len(o.cells) || len(s.leq) != len(o.leq) || len(s.written) != len(o.written) {
 		return false
+	}
+	for k := range s.written {
+		if !o.written[k] {
+			return false
+		}
 	}
 	for k, v := range s.cells {
 		if ov, ok := o.cells[k]; !ok || ov != v {
@@ -95,17 +108,20 @@ type SignCfg struct {
 	// SubMustBeOrdered: subtractions x - y for which optimism is not acceptable (pairing of
 	// sender and receiver amounts): an ordering fact y <= x must hold at the call.
 	SubMustBeOrdered func(x, y ssa.Value) bool
+	// MustBeNNAtReturn: numbers (e.g. the saved account's balance in the save runner) that, once
+	// rewritten in place, must be non-negative again whenever the function returns.
+	MustBeNNAtReturn func(fn *ssa.Function) []ssa.Value
 }
 
 type signAn struct {
-	c    *Ctx
-	cfg  SignCfg
-	fns  []*ssa.Function
-	sum  map[*ssa.Function]*signSummary
-	out  map[*ssa.Function]map[*ssa.BasicBlock]*signState
-	elem map[*ssa.Function]map[string]sg
-	rep  []signFinding
-	dirty bool
+	c         *Ctx
+	cfg       SignCfg
+	fns       []*ssa.Function
+	sum       map[*ssa.Function]*signSummary
+	out       map[*ssa.Function]map[*ssa.BasicBlock]*signState
+	elem      map[*ssa.Function]map[string]sg
+	rep       []signFinding
+	dirty     bool
 	sinksSeen map[*ssa.Function][]string
 }
 
@@ -326,7 +342,7 @@ func (a *signAn) analyse(fn *ssa.Function, report bool) {
 // inState: meet of the predecessors' out-states refined by the branch taken.
 func (a *signAn) inState(fn *ssa.Function, b *ssa.BasicBlock, outs map[*ssa.BasicBlock]*signState) *signState {
 	if b == fn.Blocks[0] {
-		return &signState{cells: map[string]sg{}, leq: map[string]bool{}}
+		return &signState{cells: map[string]sg{}, leq: map[string]bool{}, written: map[string]bool{}}
 	}
 	var acc *signState
 	for _, p := range b.Preds {
@@ -354,6 +370,9 @@ func (a *signAn) inState(fn *ssa.Function, b *ssa.BasicBlock, outs map[*ssa.Basi
 				delete(acc.leq, k)
 			}
 		}
+		for k := range es.written {
+			acc.written[k] = true
+		}
 	}
 	return acc
 }
@@ -375,7 +394,7 @@ func (a *signAn) edgeState(fn *ssa.Function, p, b *ssa.BasicBlock, ps *signState
 	ka := cellKey(cmp.A)
 	if cmp.B == nil || isZeroBig(cmp.B) {
 		if rel&core.LT == 0 {
-			st.cells[ka] = sgNN
+			st.cells[ka] = sgRef
 		}
 		return st
 	}
@@ -385,7 +404,7 @@ func (a *signAn) edgeState(fn *ssa.Function, p, b *ssa.BasicBlock, ps *signState
 	if rel&core.LT == 0 { // A >= B
 		st.leq[kb+"<="+ka] = true
 		if !sb.any {
-			st.cells[ka] = sgJoin(sgNN, sb)
+			st.cells[ka] = sgJoin(sgRef, sb)
 		}
 	}
 	if rel&core.GT == 0 { // A <= B
@@ -420,6 +439,14 @@ func (a *signAn) transfer(fn *ssa.Function, b *ssa.BasicBlock, in ssa.Instructio
 			}
 		}
 	case *ssa.Return:
+		if a.cfg.MustBeNNAtReturn != nil {
+			for _, v := range a.cfg.MustBeNNAtReturn(fn) {
+				k := cellKey(v)
+				if st.written[k] {
+					a.sink(fn, x.Pos(), "exit:balance", a.signOf(fn, v, st, outs, 0), report, " (a balance rewritten by this function must not be left negative)")
+				}
+			}
+		}
 		for i, r := range x.Results {
 			if isBigPtr(r.Type()) {
 				a.setRet(fn, i, a.signOf(fn, r, st, outs, 0), false)
@@ -445,6 +472,7 @@ func (a *signAn) transfer(fn *ssa.Function, b *ssa.BasicBlock, in ssa.Instructio
 			ns := a.opSign(fn, tn, m, args, st, outs)
 			st.cells[k] = ns
 			st.kill(k)
+			st.written[k] = true
 			// in-place update of a slice element
 			if ld, ok := args[0].(*ssa.UnOp); ok {
 				if ia, ok := ld.X.(*ssa.IndexAddr); ok {
@@ -539,7 +567,7 @@ func (a *signAn) opSign(fn *ssa.Function, tn, m string, args []ssa.Value, st *si
 		return s(1)
 	case "SetInt64":
 		if k, ok := core.ConstInt(core.Strip(args[1])); ok && k >= 0 {
-			return sgNN
+			return sgRef
 		}
 		return sgAny
 	case "SetUint64", "SetBit", "SetBits", "SetBytes":
@@ -547,12 +575,22 @@ func (a *signAn) opSign(fn *ssa.Function, tn, m string, args []ssa.Value, st *si
 	case "Add", "Mul":
 		return sgJoin(s(1), s(2))
 	case "Sub":
-		if tn == "Int" {
-			return sgJoin(s(1), s(2)) // optimistic, see the file comment
-		}
 		ka, kb := cellKey(args[1]), cellKey(args[2])
 		if st.leq[kb+"<="+ka] {
-			return sgJoin(s(1), s(2))
+			r := sgJoin(s(1), s(2))
+			r.ref = true
+			return r
+		}
+		if tn == "Int" {
+			x, y := s(1), s(2)
+			if _, isConst := constSign(ka); isConst {
+				x.ref = true // a constant has a known, possibly zero, magnitude
+			}
+			// optimistic (see the file comment) only between values that are clean by
+			// construction; a value that is merely clamped/tested may be zero
+			if !x.any && !y.any && !x.ref && !y.ref {
+				return sgJoin(x, y)
+			}
 		}
 		return sgAny
 	case "Div", "Quo", "Mod", "Rem", "SetFrac", "Exp":
